@@ -466,7 +466,7 @@ type docGen struct {
 	frags  []sx.S
 	nfrag  int
 	feats  map[string]bool
-	defect bool // a defect has been injected
+	defectInfo sx.S // the defect that has been injected (C10)
 }
 
 func (d *docGen) id() sx.S {
@@ -650,7 +650,52 @@ func (d *docGen) sels(container int, depth int) []sx.S {
 			if len(args) > 2 && chance(r, 0.5) {
 				args[1], args[2] = args[2], args[1]
 			}
-			fs := sx.L("f", d.id(), alias, sx.A(f.name), args, d.dirs())
+			fid := d.id()
+			fname := f.name
+			fdirs := d.dirs()
+			if d.p.defect != "" && d.defectInfo == nil && chance(r, 0.35) {
+				switch d.p.defect {
+				case "unknown-field":
+					fname = 9
+					d.defectInfo = sx.L("defect", "unknown-field", fid, "9")
+				case "undeclared-arg":
+					args = append(args, sx.L("a", "9", sx.L("i", "1")))
+					d.defectInfo = sx.L("defect", "undeclared-arg", fid, "9")
+				case "missing-required":
+					for ai, a := range f.args {
+						if a.ty.kind == 'N' {
+							// drop it if supplied
+							na := []sx.S{"args"}
+							for _, x := range args[1:] {
+								if sx.List(x)[1].(string) != strconv.Itoa(a.name) {
+									na = append(na, x)
+								}
+							}
+							args = na
+							d.defectInfo = sx.L("defect", "missing-required", fid, sx.A(a.name))
+							_ = ai
+							break
+						}
+					}
+				case "unknown-directive":
+					fdirs = append(fdirs, sx.L("d", "7", "-"))
+					d.defectInfo = sx.L("defect", "unknown-directive", fid, "7")
+				case "misplaced-directive":
+					fdirs = append(fdirs, sx.L("d", "0", "-"))
+					d.defectInfo = sx.L("defect", "misplaced-directive", fid, "0")
+				case "undefined-inline-cond":
+					iid := d.id()
+					out = append(out, sx.L("in", iid, "99", sx.L("dirs"), sx.L("f", d.id(), "-", "0", sx.L("args"), sx.L("dirs"))))
+					d.defectInfo = sx.L("defect", "undefined-inline-cond", iid, "99")
+				case "undefined-fragment-cond":
+					d.nfrag++
+					frid := d.id()
+					d.frags = append(d.frags, sx.L("frag", sx.A(d.nfrag), "99", sx.L("f", d.id(), "-", "0", sx.L("args"), sx.L("dirs"))))
+					out = append(out, sx.L("fr", frid, sx.A(d.nfrag), sx.L("dirs")))
+					d.defectInfo = sx.L("defect", "undefined-fragment-cond", frid, "99")
+				}
+			}
+			fs := sx.L("f", fid, alias, sx.A(fname), args, fdirs)
 			bt := d.s.byID[f.ty.base()]
 			if bt.kind == "obj" || bt.kind == "iface" || bt.kind == "union" {
 				if depth >= d.p.maxDepth {
@@ -828,6 +873,12 @@ func genExecCase(r *rand.Rand, p *profile, id string) Case {
 	}
 	input := sx.L("exec", s.sexp(), strat, graph, sx.L("root", sx.A(g.byType[1][0]), sx.A(mroot)),
 		sx.L("any", anyS), sx.L("doc", ops, frags), calls)
+	if d.defectInfo != nil {
+		input = append(input, d.defectInfo)
+		d.feats["defect:"+sx.List(d.defectInfo)[1].(string)] = true
+	} else if p.defect != "" {
+		d.feats["defect-not-placed"] = true
+	}
 	if g.hasFail {
 		d.feats["resolver-failure"] = true
 	}
@@ -915,6 +966,7 @@ func init() {
 	props["C08"] = &Prop{Gen: execGen(profC08, 3000, 50000), Exec: execExec, Valid: execValid}
 	props["C09"] = &Prop{Gen: c09Gen, Exec: execExec, Valid: execValid}
 	props["C11"] = &Prop{Gen: execGen(profC11, 1500, 20000), Exec: execExec, Valid: execValid}
+	props["C10"] = &Prop{Gen: c10Gen, Exec: execExec, Valid: execValid}
 	_ = fmt.Sprint
 }
 
@@ -994,6 +1046,29 @@ func c09Gen(r *rand.Rand, tier string) []Case {
 			p.calls = 4 // the same parsed document resolved again with other variable values
 		}
 		cases = append(cases, genExecCase(r, &p, "g"+strconv.Itoa(i)))
+	}
+	return cases
+}
+
+var profC10 = profile{pFail: 0.03, pIll: 0.01, pDir: 0.15, pAlias: 0.3, pFrag: 0.12, pInline: 0.15, pArgs: 0.85, pAny: 0.4, pBadCall: 0.0, pNullObj: 0.05, maxDepth: 4, calls: 1}
+
+// c10Gen: valid documents with exactly one injected defect of the property's catalogue.
+func c10Gen(r *rand.Rand, tier string) []Case {
+	kinds := []string{"unknown-field", "undeclared-arg", "missing-required", "unknown-directive", "misplaced-directive",
+		"undefined-inline-cond", "undefined-fragment-cond"}
+	n := 3500
+	if tier == "thorough" {
+		n = 50000
+	}
+	var cases []Case
+	for i := 0; i < n; i++ {
+		p := profC10
+		p.defect = kinds[i%len(kinds)]
+		if i%5 == 0 {
+			p.calls = 3
+		}
+		c := genExecCase(r, &p, "g"+strconv.Itoa(i))
+		cases = append(cases, c)
 	}
 	return cases
 }
